@@ -230,6 +230,23 @@ func oneRun(r *rep.Report, spec runSpec) {
 		}
 		addRecD("j0", ms(2000+rng.Intn(300)))
 		quiet(ms(6200))
+	case "no-occurrence-schedule":
+		// a cron expression without any occurrence (30 February) and one whose next occurrence is
+		// years away: accepted or refused, the job must not fire now
+		var fires int64
+		errs := map[string]string{}
+		for id, sch := range map[string]string{"never": "0 0 30 2 *", "leap": "0 0 29 2 *"} {
+			err := c.Add(ctx, id, sch, func(t time.Time) error { atomic.AddInt64(&fires, 1); return nil })
+			errs[sch] = drv.ErrStr(err)
+		}
+		add("j1", ms(300)) // an ordinary job next to them still works
+		quiet(ms(2300))
+		r.Count("no_occurrence_schedules", 2)
+		if n := atomic.LoadInt64(&fires); n > 0 {
+			r.Violate("", fmt.Sprintf("jobs whose schedule has no occurrence now (30 February; 29 February) fired %d times within 2.3 s", n), rep.J{"run": spec, "add_results": errs})
+		}
+		c.Rem(ctx, "never")
+		c.Rem(ctx, "leap")
 	case "recurring-callback-error":
 		// a callback that reports an error once is no reason to drop a recurring job
 		{
@@ -496,7 +513,7 @@ func main() {
 	e := rep.GetEnv()
 	r := rep.New(e)
 	r.Note("hooks_compiled_in", hook.Enabled())
-	patterns := []string{"rem-head-then-quiet", "replace-head-later", "add-earlier-than-head", "add-during-suspend", "pause", "rem-recurring-during-run", "replace-recurring-during-run", "replace-recurring-both-running", "rem-readd-recurring-both-running", "recurring-callback-error", "concurrent-adds-one-id", "recurring", "random", "random", "random"}
+	patterns := []string{"rem-head-then-quiet", "replace-head-later", "add-earlier-than-head", "add-during-suspend", "pause", "rem-recurring-during-run", "replace-recurring-during-run", "replace-recurring-both-running", "rem-readd-recurring-both-running", "recurring-callback-error", "no-occurrence-schedule", "concurrent-adds-one-id", "recurring", "random", "random", "random"}
 	rounds := e.Pick(1, 4)
 	var wg sync.WaitGroup
 	for round := 0; round < rounds; round++ {
